@@ -2,6 +2,7 @@
 import argparse, json, os, random, re, shutil, subprocess, sys, time, traceback
 
 VERIF = os.path.dirname(os.path.dirname(os.path.abspath(__file__)))
+import re
 import infra, gen, twins, trace as tracemod
 from infra import log, WORK, LEAN
 
@@ -131,6 +132,14 @@ def run_twin(workdir, name, tw, cfg_a="u", cfg_b=None, embed=None):
     diffs = []
     n = 0
     evf = text_event if tw.get("events") == "text" else None
+    if tw.get("require_event"):
+        # the twin's premise: callback `kind` runs during record ia of run A and record ib of run B (it is the one that acts);
+        # where it does not, the pair says nothing
+        ia, ib, kind = tw["require_event"]
+        ok = (ia < len(recs_a) and ib < len(recs_b) and recs_a[ia] is not None and recs_b[ib] is not None and
+              any(tracemod.ev_kind(e) == kind for e in recs_a[ia].evs) and any(tracemod.ev_kind(e) == kind for e in recs_b[ib].evs))
+        if not ok:
+            return [], 0, fails, ra, rb
     for ia, ib in tw["pairs"]:
         if ia >= len(recs_a) or ib >= len(recs_b) or recs_a[ia] is None or recs_b[ib] is None:
             break
@@ -140,6 +149,16 @@ def run_twin(workdir, name, tw, cfg_a="u", cfg_b=None, embed=None):
                                      ev_filter=evf, embed=embed)
         for comp, va, vb in d:
             diffs.append((ia, ib, comp, va, vb))
+        if tw.get("common") is not None and ia < len(tw["common"]):
+            # the two runs differ in what is registered and in the user data: the reports of a callback that is registered in
+            # BOTH runs at this call must still be the same (kind, argument, what the callback saw), whatever else is or was
+            # registered
+            both = tw["common"][ia]
+            strip = lambda e: re.sub(r" ud=\d+", "", e)
+            ea = [strip(e) for e in recs_a[ia].evs if tracemod.ev_kind(e) in both]
+            eb = [strip(e) for e in recs_b[ib].evs if tracemod.ev_kind(e) in both]
+            if ea != eb:
+                diffs.append((ia, ib, "E(common)", "; ".join(ea)[:300], "; ".join(eb)[:300]))
         if diffs:
             break
     # a callback that ran although it is not registered, or that got stale user data (detected by the harness itself, which
